@@ -272,11 +272,15 @@ def diff_function(ref_fn, cur_fn):
             rb, cb = _binds(f[2]), _binds(f[3])
             if rb != cb and len(rb - cb) == 1 and len(cb - rb) == 1:
                 bind_changes[next(iter(rb - cb))] = next(iter(cb - rb))
+        ref_all = {n.id for n in ast.walk(ref_fn) if isinstance(n, ast.Name)} | {a.arg for a in ast.walk(ref_fn) if isinstance(a, ast.arg)}
+        cur_all = {n.id for n in ast.walk(cur_fn) if isinstance(n, ast.Name)} | {a.arg for a in ast.walk(cur_fn) if isinstance(a, ast.arg)}
         for f in ren:
             # description: variable X replaced by Y
             parts = f[1].split()
             if len(parts) >= 5 and bind_changes.get(parts[1]) == parts[4]:
                 f[0] = 'different'
+            elif len(parts) >= 5 and parts[1] not in cur_all and parts[4] not in ref_all:
+                f[0] = 'different'      # X no longer exists and Y is new: X was renamed to Y throughout the function
     # guard 2: possibly compensating mutations (one binds what the other reads)
     muts = [f for f in findings if f[0] == 'mutation']
     if len(muts) > 1:
